@@ -262,3 +262,25 @@ register("C09", title="LevelDB store honours LogStore / StableStore", pkg="./int
               "evaluations = operations checked + kills; distinct = (start mode, operation kinds, size) per sequence and (in-flight op, position) per kill",
          floor={"quick": 5000, "thorough": 100000},
          technique="reference-model comparison after every operation; kill/reopen crash points in a child process")
+
+
+register("C19", title="time safeguard", pkg="./internal/timesafeguard",
+         parts=[{"test": "^TestVerifC19$", "children": {"quick": 8, "thorough": 16}, "cases": {"quick": 60000, "thorough": 1500000}}],
+         timeout={"quick": 300, "thorough": 1800}, level="exploration",
+         rule="synthetic measurements generated from a true clock offset (both signs, microseconds to hours, values within 1ms of the 2s election "
+              "timeout), request and response delays and 0-4 peers of which some do not answer, handed to synchronizedWithNetwork; oracle independent of "
+              "the code's formula: a measurement proves |offset| <= max(|R-E|,|R-S|). evaluations = measurements sets judged; distinct = (verdict, #peers, "
+              "#answering, #offending, within 1ms of the threshold, safeguard disabled)",
+         floor={"quick": 100000, "thorough": 1000000},
+         technique="oracle over generated measurements (tight-bound model), one-sided where the code is deliberately coarser",
+         level_note="that main() calls the safeguard before raft starts is observed only by the real-binary scenarios of C05")
+register("C18", title="codecs round-trip",
+         parts=[{"pkg": "./internal/raftstore", "test": "^TestVerifC18$", "children": {"quick": 8, "thorough": 16}, "cases": {"quick": 15000, "thorough": 300000}},
+                {"pkg": "./internal/outputstream", "test": "^TestVerifC18Batch$", "children": {"quick": 4, "thorough": 8}, "cases": {"quick": 10000, "thorough": 300000}}],
+         timeout={"quick": 300, "thorough": 1800}, level="exploration",
+         rule="generated replicated messages (all types, all field subsets, 0/max integers, long valid UTF-8): protobuf and legacy JSON encoders against "
+              "NewMessageFromBytes, id defaulting, ProtoMessage vs CopyToProtoMessage into a reused destination; raft log entries written by StoreLog(s)/"
+              "StoreLogProto read back through GetLog and raftlog.FromBytes; output batches through marshal/unmarshalMessageBatch. evaluations = values "
+              "round-tripped; distinct = (type, set of non-default fields) resp. (#messages, #recipients)",
+         floor={"quick": 50000, "thorough": 1000000},
+         technique="round-trip / differential comparison of every writer-reader pair on generated values")
